@@ -90,9 +90,18 @@ def arg_code(atom, n, v, prefix):
     if isinstance(atom, A.ClsArg):
         return [], ["&zz_obj%d" % v], []
     if isinstance(atom, A.PtrPtrOut):
+        cq = "const " if getattr(atom, "const", False) else ""
         if atom.form == "fixed":
-            return ["%s *%s = NULL;" % (atom.t.cname, z)], ["&" + z], [obs_arr(atom.t, z, 3)]
-        return ["%s *%s = NULL; int %s_n = -1;" % (atom.t.cname, z, z)], ["&" + z, "&%s_n" % z], [obs_arr(atom.t, z, "%s_n" % z)]
+            return ["%s%s *%s = NULL;" % (cq, atom.t.cname, z)], ["&" + z], [obs_arr(atom.t, z, 3)]
+        return ["%s%s *%s = NULL; int %s_n = -1;" % (cq, atom.t.cname, z, z)], ["&" + z, "&%s_n" % z], [obs_arr(atom.t, z, "%s_n" % z)]
+    if isinstance(atom, A.PtrPtrRaw):
+        return ["%s *%s = NULL;" % (atom.t.cname, z)], ["&" + z], [obs_arr(atom.t, z, 4)]
+    if isinstance(atom, A.ArrOutAlloc):
+        return ["%s %s[%d];" % (atom.t.cname, z, max(v, 1))], ["%d" % v, z], [obs_arr(atom.t, z, v)]
+    if isinstance(atom, A.VoidPP):
+        if atom.form == "in":
+            return ["int %s_t = %d; void *%s = &%s_t;" % (z, v, z, z)], ["&" + z], []
+        return ["void *%s = NULL;" % z], ["&" + z], ["obs_i(*(int *) %s);" % z]
     if isinstance(atom, A.PtrPtrIn):
         lit = lambda x: A.clit(atom.t, x)
         return ["%s %s_r1[2] = {%s, %s}, %s_r2[2] = {%s, %s}; %s *%s[2] = {%s_r1, %s_r2};" % (
@@ -151,8 +160,12 @@ def res_code(res, call, extra):
         return ["{ char zz_r = %s; obs_i((long long)(unsigned char) zz_r); }" % call]
     if isinstance(res, (A.CStrRes, A.StrRes)):
         return ["{ const char *zz_r = %s; obs_z(zz_r); }" % call]
+    if isinstance(res, A.PtrRes) and res.deref == "scalar":
+        return ["{ %s zz_r = %s; %s }" % (res.t.cname, call, obs_scalar(res.t, "zz_r"))]
     if isinstance(res, A.PtrRes):
         return ["{ %s *zz_r = %s; %s }" % (res.t.cname, call, obs_scalar(res.t, "*zz_r"))]
+    if isinstance(res, A.VoidPtrRes):
+        return ["{ void *zz_r = %s; obs_i(*(int *) zz_r); }" % call]
     if isinstance(res, A.ArrRes2):
         return ["{ %s *zz_r = %s; obs_i(%d); obs_i(2); %s }" % (res.t.cname, call, extra, obs_arr(res.t, "zz_r", 2 * extra))]
     if isinstance(res, A.ArrRes):
